@@ -40,39 +40,10 @@ theorem matchLit_suffix (pat : List Char) (s r : Str) (h : matchLit pat s = some
   obtain ⟨pre, h1, _⟩ := matchLit_spec pat s r h
   exact ⟨pre, h1.symm⟩
 
-theorem ampHere_suffix (s r : Str) (h : ampHere s = some r) : r <:+ s := by
-  unfold ampHere at h
-  split at h
-  · rename_i c r0 hm
-    have h0 := matchLit_suffix _ _ _ hm
-    split at h
-    · split at h
-      · rename_i r' hm2
-        have h1 : r' <:+ r0 := matchLit_suffix _ _ _ hm2
-        have h2 : r <:+ r' := by
-          injection h with h
-          cases hs : matchLit "s/".toList r' with
-          | none => rw [hs] at h; simp at h; rw [← h]; exact List.suffix_refl _
-          | some r'' => rw [hs] at h; simp at h; rw [← h]; exact matchLit_suffix _ _ _ hs
-        exact h2.trans (h1.trans ((List.suffix_cons c r0).trans h0))
-      · exact absurd h (by simp)
-    · exact absurd h (by simp)
-  · exact absurd h (by simp)
-
 theorem domainHere_suffix (s r : Str) (h : domainHere s = some r) : r <:+ s := by
   unfold domainHere at h
-  cases h1 : ampHere s with
-  | some r1 =>
-    rw [h1] at h; simp at h; rw [← h]; exact ampHere_suffix _ _ h1
-  | none =>
-    rw [h1] at h
-    simp only [Option.none_or] at h
-    cases h2 : matchLit "bc.marfeelcache.com/amp/".toList s with
-    | some r2 => rw [h2] at h; simp at h; rw [← h]; exact matchLit_suffix _ _ _ h2
-    | none =>
-      rw [h2] at h
-      simp only [Option.none_or] at h
-      exact matchLit_suffix _ _ _ h
+  obtain ⟨host, _, hm⟩ := List.exists_of_findSome?_eq_some h
+  exact matchLit_suffix _ _ _ hm
 
 /-- what follows a cache-host match is a suffix of the url -/
 theorem domainSplit_suffix' (u t : Str) (h : domainSplit u = some t) : t <:+ u := by
